@@ -64,6 +64,76 @@ class _NoJitter:
         return 1.0
 
 
+DELETE_ERRORS = {'NoAuthError': kexc.NoAuthError,
+                 'NotEmptyError': kexc.NotEmptyError}
+
+
+class ArchiverFaults:
+    """ZooKeeper faults of the archiver's session that simkit.zk's one-shot
+    fault_plan does not offer, installed on the client *instance* (the code
+    under test calls zkclient.delete / create, which reach _mutating):
+
+    delete_error  the delete that is the k-th mutating call of the session
+                  raises NoAuthError / NotEmptyError, and so does every later
+                  delete of that path by this session (a node the archiver
+                  may not delete: foreign ACL, child appeared); nothing is
+                  applied
+    conn_outage   mutating calls k .. k+count-1 all raise ConnectionLoss
+                  (the first one applied or not, the others not applied): an
+                  outage that outlives KazooRetry(max_tries=5) when count>=5
+
+    It also records which mutating calls of the session are deletes (the
+    enumeration in execute() picks its points from the fault-free pass).
+    """
+
+    def __init__(self, client, fault):
+        self.client = client
+        self.fault = fault if fault and fault.get('kind') in (
+            'delete_error', 'conn_outage') else None
+        self.delete_points = []
+        self.bad_paths = set()
+        self.fired = 0
+        self._real_delete = client.delete
+        self._real_mutating = client._mutating
+        client.delete = self.delete
+        if self.fault and self.fault['kind'] == 'conn_outage':
+            client._mutating = self.mutating
+
+    def delete(self, path, version=-1, recursive=False):
+        client = self.client
+        k = client.nwrites + 1
+        self.delete_points.append(k)
+        fault = self.fault
+        if fault and fault['kind'] == 'delete_error':
+            npath = zkmod._norm(path)
+            if npath in self.bad_paths or (
+                    not self.bad_paths and k == int(fault['at']) and
+                    npath in client._server.nodes):
+                client._check()
+                self.bad_paths.add(npath)
+                self.fired += 1
+                raise DELETE_ERRORS.get(fault.get('error'),
+                                        kexc.NoAuthError)()
+        return self._real_delete(path, version=version, recursive=recursive)
+
+    def mutating(self, apply):
+        client = self.client
+        fault = self.fault
+        first = int(fault['at'])
+        k = client.nwrites + 1
+        if first <= k < first + int(fault.get('count', 5)):
+            client._check()
+            client.nwrites = k
+            self.fired += 1
+            if k == first and fault.get('applied'):
+                try:
+                    apply()
+                except kexc.KazooException:
+                    pass
+            raise kexc.ConnectionLoss()
+        return self._real_mutating(apply)
+
+
 class Api:
     """The repository's own readers (second view of the oracle)."""
 
@@ -112,15 +182,23 @@ class World:
         self.zk = zkmod.SimZk(clock, log) if resume is None \
             else resume['zk'].clone_tree(clock)
         self.zk.order_seed = config.get('child_order')
+        if resume is not None:
+            # same session ids as in plain re-execution (the order in which
+            # children are returned is a function of the session id)
+            self.zk.next_sid = resume['first_sid']
+        self.first_sid = self.zk.next_sid
         self.admin = self.zk.connect('admin')
         self.node = self.zk.connect('node')
         self.api = Api(self)
+        if resume is not None:
+            self.zk.next_sid = resume['next_sid']
         self.violation = None
         self.step = 0
         self.fps = []
         self.ar = None                 # oracle state of the latest archive op
         self.archives = 0
         self.last_archive_writes = 0
+        self.last_delete_points = []
         self.last_outcome = None
         self.last_phase = None
         self.last_stats = None
@@ -132,10 +210,14 @@ class World:
             'events_kept_scheduled': 0, 'history_pruned': 0,
             'policy_pruned_events': 0, 'conn_loss_fired': 0,
             'conn_loss_retried_ok': 0, 'archiver_died_conn_loss': 0,
+            'delete_error_fired': 0,
+            'conn_outage_fired': 0, 'conn_outage_survived': 0,
+            'retry_exhausted': 0, 'delete_fault_after_partial_delete': 0,
             'recoveries': 0,
             'api_download_checks': 0, 'api_list_checks': 0,
             'oracle_evaluations': 0}
-        self.faults = {'crash': 0, 'conn_loss': 0}
+        self.faults = {'crash': 0, 'conn_loss': 0, 'delete_error': 0,
+                       'conn_outage': 0}
         self.crash_phase = {}
         if resume is None:
             self._setup_static()
@@ -154,6 +236,7 @@ class World:
         against plain re-execution)."""
         log = self.log
         return {'zk': self.zk.clone_tree(), 'us': self.clock.us,
+                'first_sid': self.first_sid, 'next_sid': self.zk.next_sid,
                 'hash': log._h.copy(), 'lines': list(log.lines),
                 'count': log.count, 'ops': list(executed),
                 't_begin': t_begin, 'archives': self.archives,
@@ -273,10 +356,11 @@ class World:
         state = oracle.ArchiveState(self.zk, par, self.clock.peek())
         self.ar = state
         fault = op.get('fault')
-        if fault:
+        if fault and fault.get('kind') in ('crash', 'conn_loss'):
             client.fault_plan = {'at': int(fault['at']),
                                  'kind': fault['kind'],
                                  'applied': bool(fault.get('applied'))}
+        injector = ArchiverFaults(client, fault)
         outcome = 'complete'
         err_text = None
         try:
@@ -307,12 +391,21 @@ class World:
         finally:
             client.fault_plan = None
         fired = list(client.fired)
+        if injector.fired:
+            kind = injector.fault['kind']
+            fired.append({'kind': kind})
+            self.probes[kind + '_fired'] += 1
+            if outcome == 'complete' and kind == 'conn_outage':
+                self.probes['conn_outage_survived'] += 1
+            if err_text and 'RetryFailedError' in err_text:
+                self.probes['retry_exhausted'] += 1
+        self.last_delete_points = injector.delete_points
         self.last_archive_writes = client.nwrites
         self.last_outcome = outcome
         self.last_phase = state.phase
         state.outcome = outcome
         for plan in fired:
-            self.faults[plan['kind']] += 1
+            self.faults[plan['kind']] = self.faults.get(plan['kind'], 0) + 1
         if any(p['kind'] == 'conn_loss' for p in fired):
             self.probes['conn_loss_fired'] += 1
             if outcome == 'complete':
@@ -345,6 +438,12 @@ class World:
             self.probes['policy_pruned_events'] += stats['exempt']
             if outcome != 'complete' and stats['both_live_and_archived']:
                 self.probes['crash_inside_upload_delete_window'] += 1
+                if injector.fired and (stats['archived'] or
+                                       stats['finished_archived'] or
+                                       stats['server_archived']):
+                    # the failing delete came after the snapshot existed and
+                    # after other nodes were already deleted
+                    self.probes['delete_fault_after_partial_delete'] += 1
         self.fingerprint_state()
 
     def op_check(self, _op):
@@ -601,6 +700,7 @@ def make_config(prop, tier, rng):
         'svc_max': rng.choice([10, 3, 2])}
     cfg['recover_frac'] = 1.0 if big else 0.25
     cfg['conn_loss_points'] = None if big else 8
+    cfg['delete_fault_points'] = None if big else 10
     cfg['child_order'] = rng.getrandbits(32) if rng.random() < 0.5 else None
     return cfg
 
@@ -651,13 +751,18 @@ class TraceSim(enginemod.Engine):
             'then the pass is re-executed once per ZooKeeper write k of it '
             'and applied in (no, yes) with a crash there (on a copy of the '
             'tree, clock and log the fault-free prefix left; the first '
-            'variant of every run and every violating variant are '
+            'variant of every fault kind and the first one with recovery of '
+            'every run and every violating variant are '
             'cross-checked against re-execution of the whole op list, '
             'digest for digest; oracle on the tree at the crash instant), a '
             'sample (quick) or '
             'all (thorough) followed by a restart of the archiver to '
             'completion and the oracle again; ConnectionLoss applied / not '
-            'applied at a sample (quick) or all (thorough) k.  Non-trivial: '
+            'applied at a sample (quick) or all (thorough) k; at a sample '
+            '(quick) or all (thorough) deletes of the pass a persistent '
+            'NoAuthError / NotEmptyError on that node and a ConnectionLoss '
+            'outage of 4, 5 or 7 consecutive calls (KazooRetry gives up '
+            'after 5).  Non-trivial: '
             'a crash variant that landed strictly inside the pass (after '
             'the first and before the last write); distinct traces = '
             'distinct fault-free histories.')
@@ -679,7 +784,7 @@ class TraceSim(enginemod.Engine):
         ]
 
     def quick_runs(self, prop):
-        return 64
+        return 48
 
     def make_config(self, prop, tier, rng):
         return make_config(prop, tier, rng)
@@ -756,6 +861,7 @@ class TraceSim(enginemod.Engine):
             res.digest = log.digest()
             res.log_lines = log.lines if keep_log else None
             res.extra = {'writes': world.last_archive_writes,
+                         'delete_points': list(world.last_delete_points),
                          'crash_phase': dict(world.crash_phase),
                          'outcome': world.last_outcome}
         finally:
@@ -774,6 +880,7 @@ class TraceSim(enginemod.Engine):
         # 1. the fault-free history (oracle after every call of the pass)
         base = self._run(config, seed, None, keep_log)
         nwrites = base.extra['writes']
+        dpoints = base.extra['delete_points']
         base.extra = {}
         if base.violation is not None:
             return base
@@ -804,6 +911,29 @@ class TraceSim(enginemod.Engine):
             for applied in (False, True):
                 variants.append({'at': k, 'kind': 'conn_loss',
                                  'applied': applied})
+        # deletes that fail although the session lives: a node the archiver
+        # may not delete, an outage that outlasts the retries
+        df_rng = streams.get('delete_fault')
+        limit = config.get('delete_fault_points')
+        points = list(dpoints)
+        if limit is not None and len(points) > limit:
+            points = sorted(df_rng.sample(points, limit))
+        for k in points:
+            if limit is None:
+                for error in sorted(DELETE_ERRORS):
+                    variants.append({'at': k, 'kind': 'delete_error',
+                                     'error': error})
+                for count in (4, 5, 7):
+                    for applied in (False, True):
+                        variants.append({'at': k, 'kind': 'conn_outage',
+                                         'count': count, 'applied': applied})
+            else:
+                variants.append({'at': k, 'kind': 'delete_error',
+                                 'error': df_rng.choice(sorted(
+                                     DELETE_ERRORS))})
+                variants.append({'at': k, 'kind': 'conn_outage',
+                                 'count': df_rng.choice([5, 5, 4, 7]),
+                                 'applied': df_rng.random() < 0.5})
         # the fault-free prefix is executed once and resumed from (the
         # variants differ only from op j on); cross-checked below
         prefix = self._run(config, seed, history[:j], keep_log,
@@ -811,7 +941,7 @@ class TraceSim(enginemod.Engine):
         prefix_sim = prefix['us'] / 1000000.0 - prefix['t_begin']
         total.steps += j
         total.sim_s += prefix_sim
-        checked = False
+        checked = set()     # fault kinds / 'recovery' already cross-checked
         for fault in variants:
             ops_v = history[:j] + [dict(history[j], fault=fault),
                                    {'op': 'check'}]
@@ -825,7 +955,8 @@ class TraceSim(enginemod.Engine):
             # count what was executed, not the resumed prefix
             ran_steps = res.steps - j
             ran_sim = res.sim_s - prefix_sim
-            if res.violation is not None or not checked:
+            category = 'recovery' if len(ops_v) > j + 2 else fault['kind']
+            if res.violation is not None or category not in checked:
                 # plain re-execution of the whole op list must agree
                 full = self._run(config, seed, ops_v, keep_log)
                 if full.digest != res.digest or full.ops != res.ops or \
@@ -836,7 +967,7 @@ class TraceSim(enginemod.Engine):
                         '%s/%s vs %s/%s' % (fault, res.digest, res.violation,
                                             full.digest, full.violation))
                 res = full
-                checked = True
+                checked.add(category)
                 ran_steps += full.steps
                 ran_sim += full.sim_s
             phases = res.extra['crash_phase']
@@ -847,7 +978,10 @@ class TraceSim(enginemod.Engine):
                 total.faults[key] = total.faults.get(key, 0) + val
             for key in ('crash_inside_upload_delete_window',
                         'conn_loss_fired', 'conn_loss_retried_ok',
-                        'archiver_died_conn_loss',
+                        'archiver_died_conn_loss', 'delete_error_fired',
+                        'conn_outage_fired',
+                        'conn_outage_survived', 'retry_exhausted',
+                        'delete_fault_after_partial_delete',
                         'archiver_raised_unexpected', 'oracle_evaluations',
                         'api_download_checks', 'api_list_checks'):
                 if key in res.probes:
